@@ -1059,6 +1059,12 @@ def enumerated_arrays():
             a.flat[0] = False
             a.flat[N - 1] = False
             yield "hollow_ends", a
+        if N > 6 and len(shape) == 3:
+            # exactly ndim filled voxels away from the low faces: an (n, ndim) index array with n == ndim
+            a = z.copy()
+            for f in (N - 1, N // 2, N - 1 - N // 3):
+                a.flat[f] = True
+            yield "three", a
 
     for shape in ((2, 3, 4), (1, 3, 2), (3, 1, 1), (1, 1, 1), (2, 2, 2)):
         for tag, a in fills(shape):
@@ -1084,6 +1090,9 @@ def enumerated_arrays():
     l1[300:] = True
     out.append(("1d:600:half", l1))
     out.append(("3d:3x3x3:mod3", (np.arange(27).reshape(3, 3, 3) % 3 == 1)))
+    t3 = np.zeros((3, 3, 3), dtype=bool)
+    t3.flat[[26, 13, 17]] = True
+    out.append(("3d:3x3x3:three", t3))
     c3 = np.ones((3, 3, 3), dtype=bool)
     c3[0, 1, 2] = c3[2, 0, 1] = False
     out.append(("3d:3x3x3:hollow_ends", c3))
@@ -1109,8 +1118,9 @@ def part_encodings(run, frac_end):
     item = 0
     arrays = enumerated_arrays()
     run.note("enc_enumerated_arrays", len(arrays))
-    deep = {(2, 3, 4): ("mod3", "checker", "hollow_ends", "empty"), (2, 2, 2): ("mod3", "hollow_ends", "corner1", "int_full"),
-            (3, 3, 3): ("mod3", "hollow_ends"), (1, 3, 2): ("mod3",)}
+    deep = {(2, 3, 4): ("mod3", "checker", "hollow_ends", "empty", "three"),
+            (2, 2, 2): ("mod3", "hollow_ends", "corner1", "int_full", "three"),
+            (3, 3, 3): ("mod3", "hollow_ends", "three"), (1, 3, 2): ("mod3",)}
     for tag, X in arrays:
         two = X.ndim == 3 and tag.split(":")[-1] in deep.get(X.shape, ())
         for rec in recipes_for(X, 2 if two else 1):
